@@ -39,7 +39,15 @@ def main():
             sys.exit(2)
         rc = mod.replay(ctx, data)
         sys.exit(rc)
-    mod.run(ctx)
+    try:
+        mod.run(ctx)
+    except Exception as e:  # noqa
+        # the harness could not drive the implementation the way it does on the unchanged tree (an internal it calls
+        # changed shape, an observation point is gone): the tie between model and code is broken, which is reported
+        # like any other broken correspondence - after a search for a failing input
+        import traceback
+        ctx.broken.append({"kind": "correspondence", "name": "harness-cannot-drive-implementation",
+                           "detail": {"exception": repr(e)[:500], "traceback": traceback.format_exc()[-3000:]}})
     sys.exit(ctx.finish(mod))
 
 
